@@ -124,6 +124,7 @@ async fn run_inner(c: &ConcCase, dir: &Path, findings: &Findings) -> Result<Case
     let log = Arc::new(Mutex::new(Vec::<Ev>::new()));
     let done_ops = Arc::new(AtomicU64::new(0));
     let acked_puts = Arc::new(AtomicU64::new(0));
+    let acked_per_key: Arc<Vec<AtomicU64>> = Arc::new((0..256).map(|_| AtomicU64::new(0)).collect());
     let start_gate = Arc::new(tokio::sync::Notify::new());
     let mut hs = vec![];
     for cl in 0..c.nclients {
@@ -132,6 +133,7 @@ async fn run_inner(c: &ConcCase, dir: &Path, findings: &Findings) -> Result<Case
         let log = log.clone();
         let done_ops = done_ops.clone();
         let acked_puts = acked_puts.clone();
+        let acked_per_key = acked_per_key.clone();
         let c = c.clone();
         let gate = start_gate.clone();
         hs.push(tokio::spawn(async move {
@@ -144,8 +146,19 @@ async fn run_inner(c: &ConcCase, dir: &Path, findings: &Findings) -> Result<Case
             for step in 0..steps {
                 let key = r.below(c.nkeys as u64) as u8;
                 let kb = key_bytes(c.cfg.keylen, key);
-                let op = if c.burst { 0 } else { r.below(21) };
-                if op == 20 {
+                let op = if c.burst { 0 } else { r.below(22) };
+                if op == 21 {
+                    // filter probes concurrent with writers, rotations and close / restore: a key with an acknowledged put is never denied
+                    let had = acked_per_key[key as usize].load(SeqCst) > 0;
+                    let cf = s.check_filters(&kb).await;
+                    let bf = s.check_filter(&kb).await;
+                    if had && cf == Some(false) {
+                        return Err(format!("check_filters/false-negative: key {} has an acknowledged put, check_filters says Some(false)", key));
+                    }
+                    if had && !bf {
+                        return Err(format!("check_filter/false-negative: key {} has an acknowledged put, BloomProvider::check_filter says NotContains", key));
+                    }
+                } else if op == 20 {
                     // a count query concurrent with writers and rotations: every put acknowledged before the call is in some blob
                     let lo = acked_puts.load(SeqCst);
                     let got = s.records_count().await as u64;
@@ -164,6 +177,7 @@ async fn run_inner(c: &ConcCase, dir: &Path, findings: &Findings) -> Result<Case
                     let res = s.write(&kb, Bytes::from(value_for(ts, cl, len)), ts, None).await;
                     if res.is_ok() {
                         acked_puts.fetch_add(1, SeqCst);
+                        acked_per_key[key as usize].fetch_add(1, SeqCst);
                     }
                     let resp = clock.fetch_add(1, SeqCst);
                     evs.push(Ev::Write { key, ts, inv, resp, del: false, ok: res.is_ok(), len: len.max(10) });
@@ -515,14 +529,16 @@ pub struct StormCase {
     pub rounds: u16,
     pub tasks: u8,
     /// 0: everybody restores, 1: everybody creates, 2: half/half, 3: nobody calls a lifecycle function (writes create the blob),
-    /// 4: no lifecycle storm; instead one fresh key is written and every client deletes it with only_if_presented = true
+    /// 4: no lifecycle storm; instead one fresh key is written and every client deletes it with only_if_presented = true,
+    /// 5: one task cycles try_restore / try_close_active_blob over a fixed set of blobs while the clients poll blobs_count,
+    ///    records_count and check_filters, all of which are invariant under that cycle
     pub kind: u8,
     pub preload_blobs: u8,
 }
 
 pub fn storm_strategy() -> BoxedStrategy<StormCase> {
     let cfg = (prop::sample::select(&[8usize, 33][..]), prop_oneof![Just(2usize), Just(8usize), Just(8usize)], prop::bool::weighted(0.3)).prop_map(|(keylen, rt_workers, bloom)| Cfg { keylen, rt_workers, bloom: if bloom { Bloom::Tiny } else { Bloom::None }, allow_dup: true, defer_ms: (2, 5), ..Cfg::default() });
-    (cfg, 40u16..140, prop_oneof![Just(4u8), Just(8), Just(16), Just(32)], 0u8..5, 1u8..5).prop_map(|(cfg, rounds, tasks, kind, preload_blobs)| StormCase { cfg, rounds, tasks, kind, preload_blobs }).boxed()
+    (cfg, 40u16..140, prop_oneof![Just(4u8), Just(8), Just(16), Just(32)], 0u8..6, 1u8..5).prop_map(|(cfg, rounds, tasks, kind, preload_blobs)| StormCase { cfg, rounds, tasks, kind, preload_blobs }).boxed()
 }
 
 fn storm_key(keylen: usize, n: u32) -> Vec<u8> {
@@ -558,7 +574,66 @@ pub fn run_storm(c: &StormCase, dir: &Path, _findings: &Findings) -> Result<Case
         let mut restore_ok_total = 0u64;
         let mut prev_round: Vec<u32> = vec![];
         let mut extra_records = 0usize;
-        for round in 0..c.rounds {
+        if c.kind == 5 {
+            // all blobs closed now; restore / close only moves the last blob between the closed list and the active slot
+            if s.has_active().await {
+                let _ = s.try_close_active().await;
+            }
+            let nblobs = s.blobs_count().await;
+            let nrec = s.records_count().await;
+            let stop = Arc::new(AtomicBool::new(false));
+            let mut hs = vec![];
+            for t in 0..c.tasks {
+                let s = s.clone();
+                let stop = stop.clone();
+                let keys = acked.clone();
+                hs.push(tokio::spawn(async move {
+                    let mut i = t as usize;
+                    let mut polls = 0u64;
+                    while !stop.load(SeqCst) {
+                        polls += 1;
+                        let b = s.blobs_count().await;
+                        if b != nblobs {
+                            return Err(format!("conc/storm/blobs-count-torn: blobs_count() = {} while the storage consists of {} blobs throughout (restore / close only move one of them)", b, nblobs));
+                        }
+                        let r = s.records_count().await;
+                        if r != nrec {
+                            return Err(format!("conc/storm/records-count-torn: records_count() = {} while {} records are stored throughout", r, nrec));
+                        }
+                        if !keys.is_empty() {
+                            i = (i + 7) % keys.len();
+                            let kb = storm_key(keylen, keys[i]);
+                            if s.check_filters(&kb).await == Some(false) {
+                                return Err(format!("conc/storm/check_filters-false-negative: key {} is stored, check_filters says Some(false) during a restore / close cycle", keys[i]));
+                            }
+                            if !s.check_filter(&kb).await {
+                                return Err(format!("conc/storm/check_filter-false-negative: key {} is stored, BloomProvider::check_filter says NotContains during a restore / close cycle", keys[i]));
+                            }
+                        }
+                        tokio::task::yield_now().await;
+                    }
+                    Ok(polls)
+                }));
+            }
+            for _ in 0..(c.rounds as usize * 4) {
+                let _ = s.try_restore_active().await;
+                let _ = s.try_close_active().await;
+                stats.steps += 1;
+            }
+            stop.store(true, SeqCst);
+            for h in hs {
+                match h.await {
+                    Ok(Ok(p)) => stats.queries += 3 * p,
+                    Ok(Err(e)) => {
+                        let (clause, detail) = e.split_once(": ").unwrap_or(("conc/storm/poll", e.as_str()));
+                        return fail(clause, detail.to_string());
+                    }
+                    Err(e) => return fail("panic", format!("client task: {}", e)),
+                }
+            }
+            labels.insert("invariant_poll_storm".to_string());
+        }
+        for round in 0..(if c.kind == 5 { 0 } else { c.rounds }) {
             stats.steps += 1;
             if c.kind == 4 {
                 // conditional-delete storm: one live record in the active blob, every client deletes it "only if presented":
@@ -747,7 +822,7 @@ pub fn run(ctx: &RunCtx) -> PropResult {
     PropResult {
         report,
         level: "exploration",
-        rule: "N real client tasks (2/4/8/32/200; bursts of 500-12000 single writes on a full, aged blob) run seeded scripts of write (16 B - 90 KB) / delete / read / contains / read_all on 3-8 keys while a maintenance task forces switches, syncs, frees resources and (level 2) manually closes+creates / restores the active blob; max_data_in_blob 20-80 so that automatic rotation, index dumps and background syncs run underneath; fresh or reopened active blob; current-thread, 2- and 8-worker runtimes; optional sleep perturbation. Timestamps come from one atomic logical clock taken before each call and every value encodes its timestamp, so each key is a max-register. Oracle: for every completed read/contains/read_all of key k: the returned record was written to k by an operation invoked before the read responded (nothing invented, bytes match), its timestamp is >= the largest timestamp acknowledged before the read was invoked (not stale), NotFound only if none, reads ordered in real time are monotone - exactly linearizability of a max-register, no search needed. At quiescence (H3 probe) read_all_with_deletion_marker of every key equals the sequential model of the acknowledged operations; after close every blob file is parsed by the harness: records tile the file, blob_offset equals position, checksums hold, every acknowledged put is stored exactly once, nothing is stored that no client wrote. Deadlock is reported only on a structural witness sampled from the probe (senders blocked on the full queue while holding the read lock, worker waiting for the write lock, zero progress over 5 samples), never on a timeout. A second generated phase (conc-storm) has 40-140 rounds per case: the active blob is closed, then 4-32 clients released by a barrier all call try_restore_active_blob, or try_create_active_blob, or a mix, or nothing, and write one fresh key each (or, fifth kind: one fresh record is written and all clients call delete(only_if_presented = true) on it - the marked-blob counts must sum to exactly 1); after every round the writes acknowledged in this and the previous round must be readable, at quiescence and after a restart every acknowledged key is served and records_count equals the number of acknowledged writes (a blob dropped by two racing lifecycle calls shows as lost writes) and the number of blob files on disk equals blobs_count (racing creators leave no orphan files). In the conc phase clients also call records_count(): it must never be below the number of puts acknowledged before the call. Non-trivial = >=1 read overlapped a write of the same key and >=1 blob rotation happened (conc); >= 4 clients and >= 10 rounds (conc-storm). distinct = FNV hash of the serialized case.".into(),
+        rule: "N real client tasks (2/4/8/32/200; bursts of 500-12000 single writes on a full, aged blob) run seeded scripts of write (16 B - 90 KB) / delete / read / contains / read_all on 3-8 keys while a maintenance task forces switches, syncs, frees resources and (level 2) manually closes+creates / restores the active blob; max_data_in_blob 20-80 so that automatic rotation, index dumps and background syncs run underneath; fresh or reopened active blob; current-thread, 2- and 8-worker runtimes; optional sleep perturbation. Timestamps come from one atomic logical clock taken before each call and every value encodes its timestamp, so each key is a max-register. Oracle: for every completed read/contains/read_all of key k: the returned record was written to k by an operation invoked before the read responded (nothing invented, bytes match), its timestamp is >= the largest timestamp acknowledged before the read was invoked (not stale), NotFound only if none, reads ordered in real time are monotone - exactly linearizability of a max-register, no search needed. At quiescence (H3 probe) read_all_with_deletion_marker of every key equals the sequential model of the acknowledged operations; after close every blob file is parsed by the harness: records tile the file, blob_offset equals position, checksums hold, every acknowledged put is stored exactly once, nothing is stored that no client wrote. Deadlock is reported only on a structural witness sampled from the probe (senders blocked on the full queue while holding the read lock, worker waiting for the write lock, zero progress over 5 samples), never on a timeout. A second generated phase (conc-storm) has 40-140 rounds per case: the active blob is closed, then 4-32 clients released by a barrier all call try_restore_active_blob, or try_create_active_blob, or a mix, or nothing, and write one fresh key each (or, sixth kind: one task cycles try_restore / try_close_active_blob over a fixed set of blobs while the clients poll blobs_count, records_count, check_filters and check_filter, all invariant under that cycle; or, fifth kind: one fresh record is written and all clients call delete(only_if_presented = true) on it - the marked-blob counts must sum to exactly 1); after every round the writes acknowledged in this and the previous round must be readable, at quiescence and after a restart every acknowledged key is served and records_count equals the number of acknowledged writes (a blob dropped by two racing lifecycle calls shows as lost writes) and the number of blob files on disk equals blobs_count (racing creators leave no orphan files). In the conc phase clients also call records_count() (never below the number of puts acknowledged before the call) and check_filters / check_filter (a key with an acknowledged put is never denied). Non-trivial = >=1 read overlapped a write of the same key and >=1 blob rotation happened (conc); >= 4 clients and >= 10 rounds (conc-storm). distinct = FNV hash of the serialized case.".into(),
         assumptions: {
             let mut a = common_assumptions();
             a.push("interleavings are those the OS and the tokio scheduler produce in these runs: sampled, not enumerated".into());
